@@ -29,6 +29,29 @@
 (*   "band" - within one pixel of the boundary (both results allowed).     *)
 (* Upstreams paint flat colours, so the content of a pixel is the name of  *)
 (* the layer seen there, or "dark" (transparent / background colour).      *)
+(*                                                                         *)
+(* Oblique extension (trace validation only): when the tile grid / request *)
+(* SRS and the SRS of the limited_to geometry are related by a             *)
+(* transformation that bends straight lines (polar stereographic grid,     *)
+(* EPSG:4326 areas) the area is not a set of lattice cells.  An entry of   *)
+(* the geometry table is then a "raster" record made for ONE request:      *)
+(*   cls   the class of every pixel centre of the request box, rows top    *)
+(*         down: 0 "out", 1 "band", 2 "in" (same definition as above,      *)
+(*         distances in grid SRS units, computed by the harness from the   *)
+(*         finely densified, point-wise projected outline of the area;     *)
+(*         "band" also when within 0.02 pixel of the one-pixel threshold)  *)
+(*   pt    the class of the feature-info query point of the request        *)
+(*         ("in" | "out" | "edge")                                         *)
+(*   grid  "yes": the area certainly meets the extent of the tile grid as  *)
+(*         the code tests it, "maybe" otherwise                            *)
+(* Class / PointClass / Contains / Intersects* / GeomMeets are routed      *)
+(* through ClassAt, PointClassAt, CoversTile, MissesTile, EntersTile,      *)
+(* GeomMeets, which read a raster entry where there is one.  The tile      *)
+(* decisions of TileLayer.render on a raster entry are derived from the    *)
+(* pixel classes (all "in": served as is or masked without effect; all     *)
+(* "out": empty response, or - the code tests the lon/lat ENVELOPE of the  *)
+(* tile, which is larger than the tile - rendered and masked completely,   *)
+(* so an upstream request for the permitted layer may be seen).            *)
 (***************************************************************************)
 EXTENDS Integers, Sequences, FiniteSets, TLC
 
@@ -37,6 +60,7 @@ CONSTANTS
   Root,       \* names directly below the unnamed root layer, bottom to top, e.g. <<"a", "g">>
   Group,      \* names of the members of the group layer "g", bottom to top (<<>>: there is no group)
   GeomTab,    \* [geometry id -> [xs, ys, cells]]   (doubled lattice coordinates, see WellFormed)
+              \* trace validation: the table of the event; entries may also be raster records [cls, pt, grid]
   GridBox,    \* <<x0, y0, x1, y1>> of the tile grid, origin upper left  (lattice units)
   GridRes,    \* <<units per pixel at level 0, level 1, ...>>
   TileSize,   \* <<tw, th>> pixels
@@ -89,6 +113,16 @@ WellFormed(g) ==
   /\ \A c \in g.cells : c[1] \notin {1, Len(g.xs) - 1} /\ c[2] \notin {1, Len(g.ys) - 1}
 ASSUME \A id \in DOMAIN GeomTab : WellFormed(GeomTab[id])
 
+\* raster entries (oblique worlds): classes per pixel of the one request the entry was made for
+IsRaster(g) == "cls" \in DOMAIN g
+WellFormedRaster(g) ==
+  /\ DOMAIN g = {"cls", "pt", "grid"}
+  /\ \A j \in 1 .. Len(g.cls) : Len(g.cls[j]) = Len(g.cls[1]) /\ \A i \in 1 .. Len(g.cls[j]) : g.cls[j][i] \in {0, 1, 2}
+  /\ g.pt \in {"in", "out", "edge"} /\ g.grid \in {"yes", "maybe"}
+ClsName(c) == IF c = 0 THEN "out" ELSE IF c = 2 THEN "in" ELSE "band"
+RasterAll(g, c) == Len(g.cls) > 0 /\ \A j \in 1 .. Len(g.cls) : \A i \in 1 .. Len(g.cls[j]) : g.cls[j][i] = c
+RasterSome(g, c) == \E j \in 1 .. Len(g.cls) : \E i \in 1 .. Len(g.cls[j]) : g.cls[j][i] = c
+
 Gap(lo, hi, v) == IF v < lo THEN lo - v ELSE IF v > hi THEN v - hi ELSE 0
 D2(p, r) == LET dx == Gap(r[1], r[3], p[1])
                 dy == Gap(r[2], r[4], p[2]) IN dx * dx + dy * dy
@@ -99,11 +133,6 @@ FarInside(g, p, d2)  == \A c \in Cells(g) \ g.cells : D2(p, Rect(g, c)) > d2
 Class(id, p, one2) ==
   LET g == geo[id] IN
   IF FarOutside(g, p, one2) THEN "out" ELSE IF FarInside(g, p, one2) THEN "in" ELSE "band"
-ClassSet(ids, p, one2) ==
-  IF ids = {} THEN "in"
-  ELSE LET cl == [id \in ids |-> Class(id, p, one2)] IN
-       IF \E id \in ids : cl[id] = "out" THEN "out"
-       ELSE IF \A id \in ids : cl[id] = "in" THEN "in" ELSE "band"
 PointClass(id, p) ==
   LET g == geo[id] IN
   IF FarOutside(g, p, 0) THEN "out" ELSE IF FarInside(g, p, 0) THEN "in" ELSE "edge"
@@ -127,6 +156,21 @@ Corner(b, i, j) == <<2 * b[1] + 2 * i * b[3], 2 * (b[2] + b[6] * b[4]) - 2 * j *
 One2(b) == LET m == 2 * Max(b[3], b[4]) IN m * m
 BoxRect(b) == <<2 * b[1], 2 * b[2], 2 * (b[1] + b[5] * b[3]), 2 * (b[2] + b[6] * b[4])>>
 GridRect == <<2 * GridBox[1], 2 * GridBox[2], 2 * GridBox[3], 2 * GridBox[4]>>
+
+\* class of the centre of pixel (i, j) (0-based, rows top down) of the request box b with respect to area id
+ClassAt(id, b, i, j) ==
+  IF IsRaster(geo[id]) THEN ClsName(geo[id].cls[j + 1][i + 1]) ELSE Class(id, Centre(b, i, j), One2(b))
+ClassSetAt(ids, b, i, j) ==
+  IF ids = {} THEN "in"
+  ELSE LET cl == [id \in ids |-> ClassAt(id, b, i, j)] IN
+       IF \E id \in ids : cl[id] = "out" THEN "out"
+       ELSE IF \A id \in ids : cl[id] = "in" THEN "in" ELSE "band"
+\* class of the feature-info query point p of the request
+PointClassAt(id, p) == IF IsRaster(geo[id]) THEN geo[id].pt ELSE PointClass(id, p)
+\* the decisions of TileLayer.render about the tile rectangle r (= the request box of a tile request)
+CoversTile(id, r) == IF IsRaster(geo[id]) THEN RasterAll(geo[id], 2) ELSE Contains(id, r)
+MissesTile(id, r) == IF IsRaster(geo[id]) THEN RasterAll(geo[id], 0) ELSE ~IntersectsClosed(id, r)
+EntersTile(id, r) == IF IsRaster(geo[id]) THEN RasterSome(geo[id], 2) ELSE IntersectsOpen(id, r)
 
 ---------------------------------------------------------------------------
 \* the callback result:  [authorized, layers : [subset of names -> [map, featureinfo, tile : BOOLEAN, lim : id | "none"]],
@@ -199,12 +243,10 @@ LimOf(n) == IF authz.all \/ authz.lims[n] = NONE THEN {} ELSE {authz.lims[n]}
 \* LayerRenderer.render + LayerMerger.merge: every remaining layer is fetched (LimitedLayer does not restrict the
 \* upstream request), clipped to its own coverage, composited bottom to top, the result clipped to the request coverage
 PixelAllowed(b, i, j) ==
-  LET p == Centre(b, i, j)
-      one2 == One2(b)
-      cl == [k \in DOMAIN actual |-> ClassSet(LimOf(actual[k]), p, one2)]
+  LET cl == [k \in DOMAIN actual |-> ClassSetAt(LimOf(actual[k]), b, i, j)]
       shown == {actual[k] : k \in {k \in DOMAIN actual : cl[k] # "out" /\ \A m \in DOMAIN actual : m > k => cl[m] # "in"}}
       under == IF \A k \in DOMAIN actual : cl[k] # "in" THEN {"dark"} ELSE {}
-      gc == ClassSet(cov, p, one2)
+      gc == ClassSetAt(cov, b, i, j)
   IN IF gc = "out" THEN {"dark"} ELSE IF gc = "band" THEN shown \cup under \cup {"dark"} ELSE shown \cup under
 
 RenderAndMerge ==
@@ -222,8 +264,8 @@ InfoGate ==
   /\ UNCHANGED <<geo, combine>> /\ path' = Append(path, "InfoGate")
   /\ pc = "render" /\ req.f = "wms.fi"
   /\ LET pt == Corner(req.box, req.pos[1], req.pos[2])
-         gcl == IF cov = {} THEN "in" ELSE PointClass(CHOOSE id \in cov : TRUE, pt)
-         lcl(n) == IF LimOf(n) = {} THEN "in" ELSE PointClass(CHOOSE id \in LimOf(n) : TRUE, pt)
+         gcl == IF cov = {} THEN "in" ELSE PointClassAt(CHOOSE id \in cov : TRUE, pt)
+         lcl(n) == IF LimOf(n) = {} THEN "in" ELSE PointClassAt(CHOOSE id \in LimOf(n) : TRUE, pt)
          must == {n \in Range(actual) : gcl = "in" /\ lcl(n) = "in"}
          may  == {n \in Range(actual) : gcl # "out" /\ lcl(n) # "out"}
      IN out' = [NoOut EXCEPT !.status = 200, !.info_must = must, !.info_may = may, !.ups_must = must, !.ups_may = may]
@@ -237,7 +279,9 @@ Extent(n) == IF n = "g"
                        THEN "grid" ELSE "world")
                ELSE IF Kinds[n] \in {"cache", "cachej"} THEN "grid" ELSE "world"
 \* FilteredRootLayer.layer_permitted: "yes" / "no" / "maybe" (the geometry only touches the extent)
-GeomMeets(id, n) == IF id = NONE \/ Extent(n) = "world" \/ IntersectsOpen(id, GridRect) THEN "yes"
+GeomMeets(id, n) == IF id = NONE \/ Extent(n) = "world" THEN "yes"
+                    ELSE IF IsRaster(geo[id]) THEN geo[id].grid
+                    ELSE IF IntersectsOpen(id, GridRect) THEN "yes"
                     ELSE IF IntersectsClosed(id, GridRect) THEN "maybe" ELSE "no"
 LayerPermitted(n) ==
   IF ~(HasEntry(n) /\ Entry(n).map) THEN "no"
@@ -278,7 +322,9 @@ TileAuthorize ==
      ELSE /\ out' = Error(403) /\ pc' = "done" /\ UNCHANGED cov
   /\ UNCHANGED <<req, cb, actual, authz>>
 
-\* TileLayer.render: coverage.contains(tile_bbox) -> as is; .intersects -> masked; else empty_response (no upstream)
+\* TileLayer.render: coverage.contains(tile_bbox) -> as is; .intersects -> masked; else empty_response (no upstream).
+\* Both tests are made in the SRS of the coverage: with a raster entry (oblique world) the code tests the lon/lat envelope
+\* of the tile, so a tile the area misses may still be rendered and masked completely (upstream request, all pixels dark)
 TileRender ==
   /\ UNCHANGED <<geo, combine>> /\ path' = Append(path, "TileRender")
   /\ pc = "tile" /\ req.f \in {"tms", "kml", "wmts.kvp", "wmts.rest"}
@@ -287,14 +333,15 @@ TileRender ==
          n == req.lay
          all(v) == [j \in 1 .. b[6] |-> [i \in 1 .. b[5] |-> Mask({v})]]
          masked == [j \in 1 .. b[6] |-> [i \in 1 .. b[5] |->
-                     LET c == ClassSet(cov, Centre(b, i - 1, j - 1), One2(b))
+                     LET c == ClassSetAt(cov, b, i - 1, j - 1)
                      IN Mask(IF c = "out" THEN {"dark"} ELSE IF c = "in" THEN {n} ELSE {n, "dark"})]]
+         envelope == \E id \in cov : IsRaster(geo[id])
      IN out' =
-        IF \A id \in cov : Contains(id, r)
+        IF \A id \in cov : CoversTile(id, r)
           THEN [NoOut EXCEPT !.status = 200, !.ups_must = {n}, !.ups_may = {n}, !.px = all(n)]
-        ELSE IF Cardinality(cov) = 1 /\ ~IntersectsClosed(CHOOSE id \in cov : TRUE, r)
-          THEN [NoOut EXCEPT !.status = 200, !.px = all("dark")]
-        ELSE IF Cardinality(cov) = 1 /\ IntersectsOpen(CHOOSE id \in cov : TRUE, r)
+        ELSE IF Cardinality(cov) = 1 /\ MissesTile(CHOOSE id \in cov : TRUE, r)
+          THEN [NoOut EXCEPT !.status = 200, !.ups_may = IF envelope THEN {n} ELSE {}, !.px = all("dark")]
+        ELSE IF Cardinality(cov) = 1 /\ EntersTile(CHOOSE id \in cov : TRUE, r)
           THEN [NoOut EXCEPT !.status = 200, !.ups_must = {n}, !.ups_may = {n}, !.px = masked]
         ELSE \* the area only touches the tile, or (repaired variant) two areas whose intersection is not modelled:
              \* masked or empty, the pixels say which
@@ -307,7 +354,7 @@ TileInfoGate ==
   /\ UNCHANGED <<geo, combine>> /\ path' = Append(path, "TileInfoGate")
   /\ pc = "tile" /\ req.f \in {"wmts.fi.kvp", "wmts.fi.rest"}
   /\ LET pt == Corner(TileBox(req.tile), req.pos[1], req.pos[2])
-         cls == {PointClass(id, pt) : id \in cov}
+         cls == {PointClassAt(id, pt) : id \in cov}
          must == IF cls \subseteq {"in"} THEN {req.lay} ELSE {}
          may  == IF "out" \in cls THEN {} ELSE {req.lay}
      IN out' = [NoOut EXCEPT !.status = 200, !.info_must = must, !.info_may = may, !.ups_must = must, !.ups_may = may]
@@ -376,7 +423,7 @@ ClippedOutsideOn(o) ==
   o.status = 200 /\ o.px # <<>> =>
     LET b == BoxOf(req) IN
     \A j \in DOMAIN o.px : \A i \in DOMAIN o.px[j] : \A n \in Values \ {"dark"} :
-       Has(o.px[j][i], n) => \A id \in AreasOf(n) : Class(id, Centre(b, i - 1, j - 1), One2(b)) # "out"
+       Has(o.px[j][i], n) => \A id \in AreasOf(n) : ClassAt(id, b, i - 1, j - 1) # "out"
 ClippedOutside == Done => ClippedOutsideOn(out)
 
 \* content well inside is kept: where the unrestricted rendering of the same request shows layer v, v is permitted and
@@ -388,14 +435,14 @@ ContentInsideOn(o) ==
   o.status = 200 /\ o.px # <<>> /\ RefTop # "dark" /\ Permitted(RefTop) =>
     LET b == BoxOf(req) IN
     \A j \in DOMAIN o.px : \A i \in DOMAIN o.px[j] :
-       (\A id \in AreasOf(RefTop) : Class(id, Centre(b, i - 1, j - 1), One2(b)) = "in") => o.px[j][i] = Mask({RefTop})
+       (\A id \in AreasOf(RefTop) : ClassAt(id, b, i - 1, j - 1) = "in") => o.px[j][i] = Mask({RefTop})
 ContentInside == Done => ContentInsideOn(out)
 
 \* feature info only for permitted layers and query points inside (or exactly on the edge of) every applicable area
 InfoGateOn(o) ==
   o.status = 200 /\ req.f \in {"wms.fi", "wmts.fi.kvp", "wmts.fi.rest"} =>
     LET pt == Corner(BoxOf(req), req.pos[1], req.pos[2]) IN
-    \A n \in o.info_may : Permitted(n) /\ \A id \in AreasOf(n) : PointClass(id, pt) # "out"
+    \A n \in o.info_may : Permitted(n) /\ \A id \in AreasOf(n) : PointClassAt(id, pt) # "out"
 InfoGateOK == Done => InfoGateOn(out)
 
 \* unauthenticated -> 401, otherwise a response is produced
@@ -406,7 +453,7 @@ StatusOK == Done => /\ out.status \in {200, 401, 403}
 
 TypeOK == /\ pc \in {"start", "authorize", "filter", "render", "tile", "done"}
           /\ Range(actual) \subseteq WmsNames
-          /\ \A id \in DOMAIN geo : WellFormed(geo[id])
+          /\ \A id \in DOMAIN geo : IF IsRaster(geo[id]) THEN WellFormedRaster(geo[id]) ELSE WellFormed(geo[id])
 NoStuck == ~Done => ENABLED Next
 
 \* observation (not part of C10): an allowed layer that the unrestricted request would NOT show because it lies below
